@@ -44,6 +44,8 @@ import (
 
 func init() { Registry["C17"] = runC17 }
 
+const c17Sec = int64(time.Second) // times and durations are nanoseconds throughout
+
 const (
 	c17NAcc     = 6
 	c17DefaultL = 26
@@ -157,7 +159,7 @@ func coqSlots(sl []slotInfo) string {
 // ------------------------------------------------------------ operations (replayable)
 
 type c17Change struct {
-	P int    `json:"p"` // slot index; -1 unknown subspace; -2 registered subspace, unregistered key
+	P int    `json:"p"` // slot index; -1 unknown subspace; -2 registered subspace, unregistered key; -3 cdp/SurplusThreshold, -4 hard/MinimumBorrowUSDValue (value always null)
 	V string `json:"v"` // proposed value text
 }
 
@@ -251,7 +253,7 @@ type c17Com struct {
 	Members   []int     `json:"members"`
 	Perms     []c17Perm `json:"perms"`
 	Threshold string    `json:"threshold"`
-	Duration  int64     `json:"duration"` // seconds
+	Duration  int64     `json:"duration"` // nanoseconds
 	FPTP      bool      `json:"fptp"`
 }
 
@@ -264,7 +266,7 @@ type c17Op struct {
 	Com     int         `json:"com,omitempty"`
 	Pid     int         `json:"pid,omitempty"`
 	Vt      int         `json:"vt,omitempty"`
-	T       int64       `json:"t,omitempty"` // seconds after genesis
+	T       int64       `json:"t,omitempty"` // nanoseconds after genesis
 	X       int64       `json:"x,omitempty"`
 	NewCom  *c17Com     `json:"newcom,omitempty"`
 }
@@ -278,6 +280,7 @@ type c17Setup struct {
 	PoolFunded   bool     `json:"pool_funded"`  // the community pool holds ukava and usdx
 	HardDeposit  bool     `json:"hard_deposit"` // the community module account has a hard deposit
 	Cdp          bool     `json:"cdp"`          // the community module account owns an xrp-a CDP
+	Bals         []int64  `json:"bals,omitempty"` // tally-denom balances of the six accounts (default c17Bals)
 }
 
 type c17Hist struct {
@@ -314,6 +317,7 @@ type c17World struct {
 	nextPid int
 	macc    sdk.AccAddress // x/community module account
 	enacted [4]int64       // community keeper calls committed so far: hard deposit, hard withdrawal, cdp repayment, cdp withdrawal
+	heldBack *[3]string    // a finding at a submission (predicate, signature, detail) that is reported at the end of the history unless a later step fails
 }
 
 type c17Snap struct {
@@ -366,6 +370,10 @@ func (w *c17World) prefNames(p int) (string, string) {
 		return "nosuchspace", "Anything"
 	case p == -2:
 		return cdptypes.ModuleName, "NoSuchKey"
+	case p == -3: // a registered scalar Int; only ever proposed as null, on which its validator dereferences nil
+		return cdptypes.ModuleName, string(cdptypes.KeySurplusThreshold)
+	case p == -4: // a registered scalar Dec; likewise
+		return hardtypes.ModuleName, string(hardtypes.KeyMinimumBorrowUSDValue)
 	}
 	return w.slots[p].Subspace, w.slots[p].Key
 }
@@ -383,7 +391,7 @@ func (w *c17World) goCom(c c17Com) ctypes.Committee {
 	if c.FPTP {
 		opt = ctypes.TALLY_OPTION_FIRST_PAST_THE_POST
 	}
-	dur := time.Duration(c.Duration) * time.Second
+	dur := time.Duration(c.Duration)
 	if c.Token {
 		return ctypes.MustNewTokenCommittee(uint64(c.ID), "c", members, perms, dec(c.Threshold), dur, opt, dec(c.Quorum), c17Denom)
 	}
@@ -421,7 +429,7 @@ func (w *c17World) goContent(c c17Content) ctypes.PubProposal {
 		return upgradetypes.NewSoftwareUpgradeProposal(title, desc, upgradetypes.Plan{Name: "v2", Height: c.H})
 	case "cchange":
 		cc := ctypes.MustNewCommitteeChangeProposal(title, desc,
-			w.goCom(c17Com{ID: 1, Members: []int{0, 1, 2, 3, 4, 5}, Perms: []c17Perm{{Kind: "god"}}, Threshold: "0.1", Duration: 10, FPTP: true}))
+			w.goCom(c17Com{ID: 1, Members: []int{0, 1, 2, 3, 4, 5}, Perms: []c17Perm{{Kind: "god"}}, Threshold: "0.1", Duration: 10 * c17Sec, FPTP: true}))
 		return &cc
 	case "cancelupgrade":
 		return upgradetypes.NewCancelSoftwareUpgradeProposal(title, desc)
@@ -489,10 +497,14 @@ func c17NewWorld(setup c17Setup, cnt *Counters) *c17World {
 	users, deputy := all[:c17NAcc], all[c17NAcc]
 	cdc := tApp.AppCodec()
 	b := app.NewAuthBankGenesisBuilder()
+	bals := c17Bals
+	if len(setup.Bals) == c17NAcc {
+		bals = setup.Bals
+	}
 	for i, a := range users {
 		coins := sdk.NewCoins(sdk.NewInt64Coin("ukava", 1_000_000))
-		if c17Bals[i] > 0 {
-			coins = coins.Add(sdk.NewInt64Coin(c17Denom, c17Bals[i]))
+		if bals[i] > 0 {
+			coins = coins.Add(sdk.NewInt64Coin(c17Denom, bals[i]))
 		}
 		b.WithSimpleAccount(a, coins)
 	}
@@ -656,7 +668,7 @@ func (w *c17World) snap() *c17Snap {
 	for ; it.Valid(); it.Next() {
 		var p ctypes.Proposal
 		cdc.MustUnmarshal(it.Value(), &p)
-		s.props = append(s.props, [3]int64{int64(p.ID), int64(p.CommitteeID), p.Deadline.Unix() - GenesisTime.Unix()})
+		s.props = append(s.props, [3]int64{int64(p.ID), int64(p.CommitteeID), p.Deadline.Sub(GenesisTime).Nanoseconds()})
 		s.ctypes = append(s.ctypes, contentKindOf(p.GetContent()))
 	}
 	it.Close()
@@ -897,7 +909,7 @@ func (w *c17World) exec(op c17Op) (cls Class, err error, out c17Out) {
 		}
 		w.now = op.T
 		w.height++
-		w.ctx = w.ctx.WithBlockHeight(w.height).WithBlockTime(GenesisTime.Add(time.Duration(op.T) * time.Second))
+		w.ctx = w.ctx.WithBlockHeight(w.height).WithBlockTime(GenesisTime.Add(time.Duration(op.T)))
 		out.oracle = w.beginOracle(w.ctx)
 		var calls [4]int64
 		cls, err = Atomically(w.ctx, func(ctx sdk.Context) error {
@@ -944,6 +956,22 @@ func (w *c17World) exec(op c17Op) (cls Class, err error, out c17Out) {
 		panic("unknown op " + op.Kind)
 	}
 	return
+}
+
+// handlerVerdict runs the routed handler of a content on a copy of the state, the way the
+// begin blocker would: "" when it succeeds, otherwise how it fails; panicked tells a panic
+// (of any value: a string, an error, a runtime error) from a returned error.
+func (w *c17World) handlerVerdict(ctx sdk.Context, c c17Content) (how string, panicked bool) {
+	cctx, _ := ctx.CacheContext()
+	defer func() {
+		if r := recover(); r != nil {
+			how, panicked = fmt.Sprintf("%T: %v", r, r), true
+		}
+	}()
+	if e := w.handlerFor(c)(cctx, w.goContent(c)); e != nil {
+		return e.Error(), false
+	}
+	return "", false
 }
 
 // goComUnchecked builds a committee without the constructor's panics (invalid ones are part of the malformed stream)
@@ -1098,11 +1126,30 @@ func protectedDiff(sl slotInfo, perms []c17Perm, slot int, oldRaw, newRaw string
 	return "param-permission-bypass:unmatched-record", fmt.Sprintf("%s/%s: %s -> %s", sl.Subspace, sl.Key, oldRaw, newRaw)
 }
 
-// exact tally, with rationals (thresholds and quorums are generated with few decimals)
-func ratOf(s string) *big.Rat { r, _ := new(big.Rat).SetString(s); return r }
+// exact tally with big integers: the decimal strings of threshold and quorum are read as
+// fractions num/den and every comparison is cross-multiplied - no division, no rounding.
+func fracOf(s string) (num, den *big.Int) {
+	r, ok := new(big.Rat).SetString(s)
+	if !ok {
+		panic("c17: not a decimal: " + s)
+	}
+	return new(big.Int).Set(r.Num()), new(big.Int).Set(r.Denom())
+}
+
+// geFrac: x >= (num/den) * y
+func geFrac(x int64, num, den *big.Int, y int64) bool {
+	l := new(big.Int).Mul(big.NewInt(x), den)
+	r := new(big.Int).Mul(num, big.NewInt(y))
+	return l.Cmp(r) >= 0
+}
 
 func (w *c17World) exactTally(c c17Com, pid int, s *c17Snap) bool {
-	thr := ratOf(c.Threshold)
+	ok, _ := w.exactTallyDetail(c, pid, s)
+	return ok
+}
+
+func (w *c17World) exactTallyDetail(c c17Com, pid int, s *c17Snap) (bool, string) {
+	tn, td := fracOf(c.Threshold)
 	if !c.Token {
 		n := 0
 		for _, v := range s.votes {
@@ -1110,10 +1157,11 @@ func (w *c17World) exactTally(c c17Com, pid int, s *c17Snap) bool {
 				n++
 			}
 		}
-		need := new(big.Rat).Mul(thr, big.NewRat(int64(len(c.Members)), 1))
-		return big.NewRat(int64(n), 1).Cmp(need) >= 0
+		ok := geFrac(int64(n), tn, td, int64(len(c.Members)))
+		return ok, fmt.Sprintf("member committee %d: %d votes of %d members, threshold %s: %d*%s >= %s*%d is %v", c.ID, n, len(c.Members), c.Threshold, n, td, tn, len(c.Members), ok)
 	}
 	var yes, no, tot int64
+	var vs []string
 	for _, v := range s.votes {
 		if int(v[0]) != pid {
 			continue
@@ -1128,12 +1176,13 @@ func (w *c17World) exactTally(c c17Com, pid int, s *c17Snap) bool {
 		} else if v[2] == 2 {
 			no += b
 		}
+		vs = append(vs, fmt.Sprintf("voter %d type %d balance %d", v[1], v[2], b))
 	}
-	q := new(big.Rat).Mul(ratOf(c.Quorum), big.NewRat(s.supply, 1))
-	if big.NewRat(tot, 1).Cmp(q) < 0 {
-		return false
-	}
-	return big.NewRat(yes, 1).Cmp(new(big.Rat).Mul(thr, big.NewRat(yes+no, 1))) >= 0
+	qn, qd := fracOf(c.Quorum)
+	quorum := geFrac(tot, qn, qd, s.supply)
+	thr := geFrac(yes, tn, td, yes+no)
+	return quorum && thr, fmt.Sprintf("token committee %d: quorum %s, threshold %s, supply %d; votes [%s]; total %d yes %d no %d; quorum met (%d*%s >= %s*%d): %v; threshold met (%d*%s >= %s*%d): %v",
+		c.ID, c.Quorum, c.Threshold, s.supply, strings.Join(vs, "; "), tot, yes, no, tot, qd, qn, s.supply, quorum, yes, td, tn, yes+no, thr)
 }
 
 func (w *c17World) monitor(op c17Op, cls Class, out c17Out, before, after *c17Snap) (pred, sig, detail string) {
@@ -1165,6 +1214,10 @@ func (w *c17World) monitor(op c17Op, cls Class, out c17Out, before, after *c17Sn
 			cctx, _ := w.ctx.CacheContext()
 			content := w.goContent(*op.Content)
 			if w.k.ValidatePubProposal(cctx, content) == nil {
+				if how, panicked := w.handlerVerdict(w.ctx, *op.Content); panicked {
+					return "dry-run-refuses-a-panicking-handler", "dry-run-passed-handler-panics",
+						fmt.Sprintf("ValidatePubProposal accepts a proposal whose handler, run on the same state, panics: %s; content %s", how, MustJSON(op.Content))
+				}
 				cctx2, _ := w.ctx.CacheContext()
 				if params.NewParamChangeProposalHandler(w.tApp.GetParamsKeeper())(cctx2, content) == nil {
 					nr := w.rawsAt(cctx2)
@@ -1176,7 +1229,14 @@ func (w *c17World) monitor(op c17Op, cls Class, out c17Out, before, after *c17Sn
 				}
 			}
 		}
+	case "apply":
+		if cls == ClassPanic {
+			// the driver calls ValidatePubProposal and then the handler, on the same state, as enactProposal does
+			return "dry-run-refuses-a-panicking-handler", "dry-run-passed-handler-panics",
+				fmt.Sprintf("ValidatePubProposal accepted a proposal whose handler then panicked on the same state; content %s", MustJSON(op.Content))
+		}
 	case "submit", "vote":
+		handlerPanics := false
 		if !paramsSame() || before.plan != after.plan {
 			return "submit-vote-apply-no-effects", "submit-or-vote-changed-params", op.Kind
 		}
@@ -1208,9 +1268,16 @@ func (w *c17World) monitor(op c17Op, cls Class, out c17Out, before, after *c17Sn
 					return "failing-handler-rejected-at-submission", "stored-proposal-with-failing-handler", fmt.Sprintf("upgrade plan height %d at height %d", op.Content.H, w.height)
 				}
 			} else if op.Content.Kind != "cancelupgrade" {
-				cctx, _ := w.ctx.CacheContext()
-				if e := w.handlerFor(*op.Content)(cctx, w.goContent(*op.Content)); e != nil {
-					return "failing-handler-rejected-at-submission", "stored-proposal-with-failing-handler", e.Error()
+				if how, panicked := w.handlerVerdict(w.ctx, *op.Content); panicked {
+					// kept back: if the history goes on to the block that enacts it, the halted begin blocker is the
+					// finding (begin-block-panicked-on-panicking-handler); otherwise this is reported at the end
+					handlerPanics = true
+					if w.heldBack == nil {
+						w.heldBack = &[3]string{"failing-handler-rejected-at-submission", "stored-proposal-with-panicking-handler",
+							fmt.Sprintf("proposal %d of committee %d was accepted; its handler, run on the state of the submission, panics: %s; content %s", out.id, op.Com, how, MustJSON(op.Content))}
+					}
+				} else if how != "" {
+					return "failing-handler-rejected-at-submission", "stored-proposal-with-failing-handler", how
 				}
 			}
 			c := w.coms[op.Com]
@@ -1220,7 +1287,7 @@ func (w *c17World) monitor(op c17Op, cls Class, out c17Out, before, after *c17Sn
 			}
 			w.nextPid++
 			// the dry run must agree with the permission: what would enacting it now do?
-			if c.hasParamsOnly() && op.Content.Kind == "param" {
+			if c.hasParamsOnly() && op.Content.Kind == "param" && !handlerPanics {
 				cctx2, _ := w.ctx.CacheContext()
 				if params.NewParamChangeProposalHandler(w.tApp.GetParamsKeeper())(cctx2, w.goContent(*op.Content)) == nil {
 					nr := w.rawsAt(cctx2)
@@ -1228,6 +1295,21 @@ func (w *c17World) monitor(op c17Op, cls Class, out c17Out, before, after *c17Sn
 						if s, d := protectedDiff(w.slots[i], c.Perms, i, before.raws[i], nr[i]); s != "" {
 							return "allowed-change-touches-only-listed-fields", s, d
 						}
+					}
+				}
+			}
+		}
+		if op.Kind == "vote" && cls == ClassErr {
+			// a vote cast at a block time strictly before the deadline is accepted
+			if p := w.pend[op.Pid]; p != nil && !w.closed[op.Pid] && w.now < p.deadline && op.Vt >= 1 && op.Vt <= 3 {
+				if c, ok := w.coms[p.com]; ok {
+					member := false
+					for _, m := range c.Members {
+						member = member || m == op.A
+					}
+					if c.Token || (member && op.Vt == 1) {
+						return "votes-before-deadline-accepted", "vote-refused-before-deadline",
+							fmt.Sprintf("proposal %d voter %d type %d: block time %d ns, deadline %d ns (%d ns ahead)", op.Pid, op.A, op.Vt, w.now, p.deadline, p.deadline-w.now)
 					}
 				}
 			}
@@ -1280,7 +1362,22 @@ func (w *c17World) monitor(op c17Op, cls Class, out c17Out, before, after *c17Sn
 						fmt.Sprintf("proposal %d: upgrade plan height %d, block height %d, deadline %d, t=%d", pid, p.content.H, w.height, p.deadline, w.now)
 				}
 			}
-			return "begin-blocker-never-panics", "begin-blocker-panic", ""
+			// which stored proposal's handler panics or fails on this block's state?
+			var bad []string
+			for pid := 1; pid < w.nextPid; pid++ {
+				p := w.pend[pid]
+				if p == nil || w.closed[pid] || p.content.Kind == "upgrade" || p.content.Kind == "cancelupgrade" {
+					continue
+				}
+				if how, panicked := w.handlerVerdict(w.ctx, p.content); panicked {
+					bad = append(bad, fmt.Sprintf("proposal %d (committee %d, deadline %d ns): handler panics: %s; content %s", pid, p.com, p.deadline, how, MustJSON(p.content)))
+				}
+			}
+			if len(bad) > 0 {
+				return "failing-handler-closed-invalid-without-halting", "begin-block-panicked-on-panicking-handler",
+					fmt.Sprintf("block time %d ns: %s", w.now, strings.Join(bad, " | "))
+			}
+			return "begin-blocker-never-panics", "begin-blocker-panic", fmt.Sprintf("block time %d ns", w.now)
 		}
 		if cls != ClassOk {
 			return "", "", ""
@@ -1305,11 +1402,12 @@ func (w *c17World) monitor(op c17Op, cls Class, out c17Out, before, after *c17Sn
 				if !found {
 					return "enacted-only-with-committee", "enacted-without-committee", fmt.Sprint(pid)
 				}
-				if !w.exactTally(c, pid, before) {
-					return "enacted-only-on-passing-tally", "enacted-on-failing-tally", fmt.Sprintf("proposal %d outcome %d", pid, oc)
+				if ok, how := w.exactTallyDetail(c, pid, before); !ok {
+					return "enacted-only-on-passing-tally", "enacted-on-failing-tally", fmt.Sprintf("proposal %d outcome %s: %s", pid, outcomeCoq[oc], how)
 				}
 				if !c.FPTP && w.now < p.deadline {
-					return "deadline-committee-enacts-at-deadline", "enacted-before-deadline", fmt.Sprintf("proposal %d t=%d deadline=%d", pid, w.now, p.deadline)
+					return "deadline-committee-enacts-at-deadline", "enacted-before-deadline",
+						fmt.Sprintf("proposal %d closed %s at block time %d ns, %d ns before its deadline %d ns", pid, outcomeCoq[oc], w.now, p.deadline-w.now, p.deadline)
 				}
 				if oc == 0 {
 					passed++
@@ -1324,7 +1422,8 @@ func (w *c17World) monitor(op c17Op, cls Class, out c17Out, before, after *c17Sn
 				}
 			case 1:
 				if found && !(w.now >= p.deadline && !w.exactTally(c, pid, before)) {
-					return "failed-only-when-expired-and-not-passing", "failed-while-passing-or-pending", fmt.Sprintf("proposal %d t=%d deadline=%d", pid, w.now, p.deadline)
+					_, how := w.exactTallyDetail(c, pid, before)
+					return "failed-only-when-expired-and-not-passing", "failed-while-passing-or-pending", fmt.Sprintf("proposal %d closed Failed at block time %d ns, deadline %d ns; %s", pid, w.now, p.deadline, how)
 				}
 			}
 		}
@@ -1437,7 +1536,9 @@ func coqPref(p int) string {
 	switch p {
 	case -1:
 		return "PNoSubspace"
-	case -2:
+	case -2, -3, -4:
+		// -3, -4: a registered scalar parameter proposed as null.  Subspace.Update panics on it (nil dereference
+		// in the validator) as it does on an unregistered key (string panic): the model has one case for both.
 		return "PNoKey"
 	}
 	return "(PKnown " + Nat(p) + ")"
@@ -1693,6 +1794,7 @@ func c17Run(seed uint64, idx, n int, setup c17Setup, ops []c17Op, cnt *Counters)
 	prev := w.snap()
 	header := coqSlots(w.slots) + "\n  " + w.coqInit(setup, prev)
 	var steps []string
+	var held *Failure
 	if ops != nil {
 		n = len(ops)
 	}
@@ -1723,7 +1825,13 @@ func c17Run(seed uint64, idx, n int, setup c17Setup, ops []c17Op, cnt *Counters)
 		if pred, sig, detail := w.monitor(op, cls, out, prev, after); pred != "" && fail == nil {
 			fail = &Failure{History: idx, Step: i, Predicate: pred, Signature: sig, Detail: detail}
 		}
+		if w.heldBack != nil && held == nil {
+			held = &Failure{History: idx, Step: i, Predicate: w.heldBack[0], Signature: w.heldBack[1], Detail: w.heldBack[2]}
+		}
 		prev = after
+	}
+	if fail == nil {
+		fail = held
 	}
 	coq = fmt.Sprintf("mkHist %s\n  %s", header, List(steps))
 	return
@@ -1751,7 +1859,47 @@ func c17Splits(w *c17World, op c17Op, cls Class, out c17Out, before, after *c17S
 				cnt.Inc(fmt.Sprintf("split:allows:%s:%v", kind, out.b))
 			}
 		}
+	case "vote":
+		if p := w.pend[op.Pid]; p != nil && cls == ClassOk && w.now < p.deadline && w.now/c17Sec == p.deadline/c17Sec {
+			cnt.Inc("split:edge:vote-accepted-in-deadline-second")
+		}
 	case "begin":
+		for pid, p := range w.pend {
+			closedNow := false
+			for _, ev := range out.closed {
+				closedNow = closedNow || ev[0] == pid
+			}
+			if !w.closed[pid] && !closedNow && w.now < p.deadline && w.now/c17Sec == p.deadline/c17Sec {
+				cnt.Inc("split:edge:left-open-in-deadline-second")
+			}
+		}
+		for _, ev := range out.closed {
+			if p := w.pend[ev[0]]; p != nil && w.now == p.deadline && p.deadline%c17Sec != 0 {
+				cnt.Inc("split:edge:closed-on-subsecond-deadline")
+			}
+			if p := w.pend[ev[0]]; p != nil {
+				if c, ok := w.coms[p.com]; ok && c.Token && before.supply > 0 {
+					var tot int64
+					for _, v := range before.votes {
+						if int(v[0]) == ev[0] && int(v[1]) < len(before.bals) {
+							tot += before.bals[v[1]]
+						}
+					}
+					qn, qd := fracOf(c.Quorum)
+					least := ceilFrac(qn, qd, before.supply)
+					switch tot {
+					case least:
+						cnt.Inc("split:edge:turnout-least-meeting-quorum")
+					case least - 1:
+						cnt.Inc("split:edge:turnout-one-below-quorum")
+						// coverage only: would the rounded ratio have met it?
+						if sdk.NewDec(tot).Quo(sdk.NewDec(before.supply)).GTE(dec(c.Quorum)) {
+							cnt.Inc("split:edge:quorum-missed-within-rounding")
+						}
+					}
+				}
+			}
+		}
 		for _, ev := range out.closed {
 			p := w.pend[ev[0]]
 			when := "at-deadline"
@@ -1805,6 +1953,21 @@ func c17Splits(w *c17World, op c17Op, cls Class, out c17Out, before, after *c17S
 			cnt.Inc("split:submit:refused-bad-meta")
 		} else if ok && op.Content.isCommunity() && !op.Content.ok {
 			cnt.Inc("split:submit:refused-handler-fails:" + op.Content.Kind)
+		} else if ok && op.Content.Kind == "param" && op.Content.Meta == 0 {
+			permitted := false
+			func() {
+				defer func() { _ = recover() }()
+				cctx, _ := w.ctx.CacheContext()
+				permitted = w.goCom(c).HasPermissionsFor(cctx, w.tApp.AppCodec(), w.tApp.GetParamsKeeper(), w.goContent(*op.Content))
+			}()
+			if _, panicked := w.handlerVerdict(w.ctx, *op.Content); panicked && permitted {
+				for _, ch := range op.Content.Changes {
+					if ch.P != -2 {
+						cnt.Inc("split:submit:refused-handler-panics-nil-value")
+						break
+					}
+				}
+			}
 		}
 	}
 }
@@ -1826,6 +1989,10 @@ var c17AllSplits = []string{
 	"matrix:cdprepay:cdpwithdraw:false", "matrix:cdpwithdraw:cdprepay:false", "matrix:lendwithdraw:lenddeposit:false", "matrix:lendwithdraw:cdprepay:false",
 	"matrix:god:lenddeposit:true", "matrix:text:text:true", "matrix:other:upgrade:true", "matrix:text:upgrade:false", "matrix:other:text:false",
 	"submit:refused-bad-meta", "closed:invalid:permission-gone",
+	"script:tally-edge", "script:deadline-edge", "script:nil-value",
+	"edge:vote-accepted-in-deadline-second", "edge:left-open-in-deadline-second", "edge:closed-on-subsecond-deadline",
+	"edge:turnout-least-meeting-quorum", "edge:turnout-one-below-quorum", "edge:quorum-missed-within-rounding",
+	"submit:refused-handler-panics-nil-value",
 }
 
 func runC17(o Opts) (*Result, error) {
